@@ -125,10 +125,16 @@ pub fn scenario(prop: &str, seed: u64, i: u64, rep: &mut Report) {
                 }
                 4 => {
                     // the embedded-io seek, 64-bit positions
-                    let to = match rng.below(3) {
+                    let to = match rng.below(5) {
                         0 => SeekTo::Start(near(&mut *rng, model.len)),
                         1 => SeekTo::End(-(*rng.pick(&[0i64, 1, 512, 70000]))),
-                        _ => SeekTo::Current(*rng.pick(&[0i64, -1, 1, -70000])),
+                        2 => SeekTo::Current(*rng.pick(&[0i64, -1, 1, -70000])),
+                        // distances that do not fit 32 bits, and the extremes of the 64-bit range
+                        3 => {
+                            let far = *rng.pick(&[0x9000_0000i64, 0xA000_0000, 0xFFFF_FF00, 0x8000_0000, 0x7FFF_FFFF]);
+                            if off as i64 >= far { SeekTo::Current(-far) } else { SeekTo::Current(far) }
+                        }
+                        _ => *rng.pick(&[SeekTo::End(i64::MIN), SeekTo::End(i64::MAX), SeekTo::End(i64::MIN + 1), SeekTo::Current(i64::MIN), SeekTo::Current(i64::MAX), SeekTo::Start(u64::MAX), SeekTo::Start(1 << 32), SeekTo::End(-(1 << 32)), SeekTo::End(-(model.len as i64))]),
                     };
                     let want: i128 = match to {
                         SeekTo::Start(s) => s as i128,
